@@ -1,7 +1,7 @@
 (* C20 — property theorems only: pinned statement, `exact`, Print Assumptions. *)
 From Coq Require Import List NArith ZArith Bool.
 Import ListNotations.
-From L4 Require Import Model.Literals Proofs.Literals.
+From L4 Require Import Model.Literals Proofs.Literals Model.LiteralVisitors Proofs.LiteralVisitors.
 Local Open Scope N_scope.
 
 (* "<digits><ws><unit><ws>" with any digit string (any length, leading zeros), any
@@ -118,6 +118,26 @@ Theorem C20_int_forms :
     parse_size SFloat = None /\ parse_interval SFloat = None.
 Proof. intros z. split; [exact (size_int_exact z)|split; [exact (interval_int_exact z)|split; reflexivity]]. Qed.
 Print Assumptions C20_int_forms.
+
+(* ... whichever visitor method the document's front-end calls for it: serde_yaml / serde_json hand a
+   non-negative integer to visit_u64 and a negative one to visit_i64, toml hands EVERY integer (it has
+   only i64) to visit_i64.  Through each front-end that can carry the integer the visitor layer gives
+   what C20_int_forms says, so the meaning does not depend on the front-end. *)
+Theorem C20_int_through_every_front_end :
+  forall (fe : frontend) (z : Z),
+    in_range fe z = true ->
+    size_of_int fe z = parse_size (SInt z) /\ interval_of_int fe z = parse_interval (SInt z).
+Proof.
+  exact (fun fe z H => conj (size_of_int_is_parse_size fe z H) (interval_of_int_is_parse_interval fe z H)).
+Qed.
+Print Assumptions C20_int_through_every_front_end.
+
+Theorem C20_int_meaning_is_front_end_independent :
+  forall (fe1 fe2 : frontend) (z : Z),
+    in_range fe1 z = true -> in_range fe2 z = true ->
+    size_of_int fe1 z = size_of_int fe2 z /\ interval_of_int fe1 z = interval_of_int fe2 z.
+Proof. exact int_meaning_is_frontend_independent. Qed.
+Print Assumptions C20_int_meaning_is_front_end_independent.
 
 Theorem C20_never_wraps :
   (forall sc n, parse_size sc = Some n -> n < two64) /\
